@@ -98,7 +98,7 @@ fn main() {
             if v <= num_bigint::BigInt::from(0) {
                 continue;
             }
-            for s in [0i128, 1] {
+            for s in [0i128, 1, 2] {
                 sweep(&run, 3, &Dec { n: v.clone(), s }, &p6, false, &mut t);
             }
         }
@@ -118,6 +118,18 @@ fn main() {
             }
             sweep(&run, 3, &x, &p8, false, &mut t);
         }
+        t
+    });
+    // S9 call histories: the functions are pure, so a call must not depend on the calls made before it on the same
+    // thread (caches of earlier roots, reused scratch state): every ordered pair of (precision, mode) settings from
+    // a small set on each operand, and the descending chain of precisions 40..1 under each mode
+    let hx: Vec<Dec> = vec![Dec::new(2, 0), Dec::new(3, 0), Dec::new(5, 0), Dec::new(7, 4), Dec::new(10, 0), Dec::new(11, 1), Dec::new(2, 1), Dec::new(99, 0), Dec::new(1000, 0), Dec::new(12345, 2), Dec::new(6, 0), Dec::new(8, 0), Dec::new(15, 0), Dec::new(27, 1), Dec::new(50, 0), Dec::new(123456789, 0)];
+    let hp: Vec<u64> = tier.pick(vec![1, 2, 3, 5, 17, 18], vec![1, 2, 3, 4, 5, 8, 16, 17, 18, 19, 34]);
+    run.bound("S9_history_operands", hx.len());
+    run.bound("S9_history_precisions", json!(hp));
+    run.par("S9 call histories of length two", hx.len(), |i| {
+        let mut t = Tally::default();
+        props::roots::history_pairs(&run, 3, &hx[i], &hp, tier.pick(40, 100), &mut t);
         t
     });
     // S7 giant precisions: near-powers from below and above, far beyond the stated p <= 150
